@@ -499,6 +499,96 @@ func vE2E(a []string) string {
 	return fmt.Sprintf("ok %s | %s %s %s", sc.seen, sHexB(resp.Body), outcome, sResExtra(&resp.Extra))
 }
 
+var (
+	vFwdOut, vFwdIn *PacketConn
+	vFwdErr         error
+)
+
+// a handshaken PacketConn pair over TCP 127.0.0.1 (proxy -> final server)
+func vStartFwd() error {
+	if vFwdOut != nil || vFwdErr != nil {
+		return vFwdErr
+	}
+	ln, err := net.Listen("tcp4", "127.0.0.1:0")
+	if err != nil {
+		vFwdErr = err
+		return err
+	}
+	defer ln.Close()
+	type acc struct {
+		c   net.Conn
+		err error
+	}
+	ch := make(chan acc, 1)
+	go func() {
+		c, err := ln.Accept()
+		ch <- acc{c, err}
+	}()
+	ca, err := net.Dial("tcp4", ln.Addr().String())
+	if err != nil {
+		vFwdErr = err
+		return err
+	}
+	sa := <-ch
+	if sa.err != nil {
+		vFwdErr = sa.err
+		return sa.err
+	}
+	out := NewPacketConn(ca, 1<<16, 1<<16)
+	in := NewPacketConn(sa.c, 1<<16, 1<<16)
+	hs := make(chan error, 1)
+	go func() {
+		_, _, err := in.HandshakeServer(nil, nil, false, 0, 10*time.Second)
+		hs <- err
+	}()
+	if err := out.HandshakeClient("", nil, false, 0, 0, 10*time.Second, DefaultProtocolVersion); err != nil {
+		vFwdErr = err
+		return err
+	}
+	if err := <-hs; err != nil {
+		vFwdErr = err
+		return err
+	}
+	vFwdOut, vFwdIn = out, in
+	return nil
+}
+
+// proxy hop: ParseInvokeReq on the proxy, then the real HandlerContext.ForwardAndFlush onto a PacketConn (net.Pipe),
+// the packet is read back with PacketConn.ReadPacket and parsed by the final server
+func vForward(wire []byte) string {
+	hctx := &HandlerContext{}
+	hctx.Request = wire
+	opts := ServerOptions{DefaultResponseTimeout: vDefaultTimeout}
+	if err := hctx.ParseInvokeReq(&opts); err != nil {
+		return "proxy-" + vErrKind(err)
+	}
+	if err := vStartFwd(); err != nil {
+		return "fwd-unavailable"
+	}
+	out, in := vFwdOut, vFwdIn
+	type rd struct {
+		tip  uint32
+		body []byte
+		err  error
+	}
+	ch := make(chan rd, 1)
+	go func() {
+		tip, body, err := in.ReadPacket(nil, 10*time.Second)
+		ch <- rd{tip, body, err}
+	}()
+	if err := hctx.ForwardAndFlush(out, tl.RpcInvokeReqHeader{}.TLTag(), 10*time.Second); err != nil {
+		return "fwd-big"
+	}
+	r := <-ch
+	if r.err != nil {
+		return "fwd-read-error"
+	}
+	if r.tip != (tl.RpcInvokeReqHeader{}.TLTag()) {
+		return "fwd-wrong-packet-type"
+	}
+	return vParseReq(r.body)
+}
+
 func VerifRpcextraHandle(line string) (res string) {
 	defer func() {
 		if r := recover(); r != nil {
@@ -523,6 +613,14 @@ func VerifRpcextraHandle(line string) (res string) {
 			return "big"
 		}
 		return fmt.Sprintf("ok %s %d %s", sHexB(req.Body), req.extraStart, vParseReq(vWire(req.Body, req.extraStart)))
+	case op == "rpcextra.fwd" && len(a) == 18:
+		body := vHex(a[3])
+		req := &Request{Body: append(make([]byte, 0, len(body)), body...), ActorID: int64(vU64(a[1])), Extra: vReqExtra(a[4:]), BodyFormatTL2: vBool(a[2])}
+		req.queryID = int64(vU64(a[0]))
+		if err := preparePacket(req); err != nil {
+			return "big"
+		}
+		return vErrPrefix(vForward(vWire(req.Body, req.extraStart)))
 	case op == "rpcextra.parse" && len(a) == 1:
 		return vErrPrefix(vParseReq(vHex(a[0])))
 	case op == "rpcextra.resp" && len(a) == 19:
